@@ -179,6 +179,12 @@ Verdict_dispatch(e) ==
                 /\ o.args_same /\ o.value_same /\ o.rpc_same
     IN  [bind |-> bind, unspec |-> FALSE, violated |-> IF bind THEN {} ELSE Props(e)]
 
+\* a complete exchange: decoded request, call log and what is left in the transport buffer
+Verdict_exchange(e) ==
+    LET o == e.obs
+        bind == o.req = req /\ o.calls = calls /\ o.buf = buf
+    IN  [bind |-> bind, unspec |-> FALSE, violated |-> IF bind THEN {} ELSE Props(e)]
+
 \* table look-ups: every field the model fixes must be observed with that value
 Verdict_lookup(e) ==
     LET o == e.obs
@@ -217,6 +223,7 @@ VerdictOf(e) ==
            [] e.op = "u2f_encode"  -> Verdict_u2f_encode(e)
            [] e.op = "dispatch"    -> Verdict_dispatch(e)
            [] e.op \in LookupOps    -> Verdict_lookup(e)
+           [] e.op = "exchange"    -> Verdict_exchange(e)
            [] e.op = "arbitrary"   -> Verdict_arbitrary(e)
 
 
